@@ -171,10 +171,11 @@ def attempts : Nat → Nat
 
 end stream
 
-/-- what the observation `e`, made when the thread is at `pc`, answers to the pending `alive()` of the counting scan -/
+/-- what the observation `e`, made when the thread is at `pc`, answers to the pending `alive()` of the counting scan
+    (the `lastAlive` input that follows the announcement) -/
 def answer (pc : Pc) (e : Env) : Nat :=
   match pc with
-  | .scan cur _ _ => if aliveIn cur e then 1 else 0
+  | .scan _ _ _ => if e.lastAlive then 1 else 0
   | _ => 0
 
 /-- the places of the sentinel loop where the flags may be consulted -/
@@ -201,7 +202,7 @@ end stream
 def SentInv (new : Nat) (pc : Pc) (e : Env) (rep sen : Nat) (c : Bool) : Prop :=
   match pc with
   | .entry | .locked | .jobWait | .mgmtHeld => rep = 0 ∧ sen = 0
-  | .scan cur _ cnt => rep = cnt + (if aliveIn cur e then 1 else 0) ∧ sen = 0
+  | .scan _ _ cnt => rep = cnt + (if e.lastAlive then 1 else 0) ∧ sen = 0
   | .sentAcq rem =>
       sen + rem + (if e.lastTimeout then 1 else 0) ≤ rep - new ∧
       (c = true → sen + rem + (if e.lastTimeout then 1 else 0) = rep - new)
@@ -319,13 +320,13 @@ end stream
 theorem into_arrScan {new : Nat} {pc : Pc} {e : Env} {cur : Nat} {todo : List Nat}
     (h : (next new pc e).2 = .arrScan cur todo) :
     (pc = .arrive ∧ flagged e = false ∧ pids e = cur :: todo) ∨
-    (∃ c, pc = .arrScan c (cur :: todo) ∧ aliveIn c e = true) := by
+    (∃ c, pc = .arrScan c (cur :: todo) ∧ e.lastAlive = true) := by
   revert h; cases pc <;> nx <;> simp_all
 
 theorem relExec_from {new : Nat} {pc : Pc} {e : Env} (h : (next new pc e).1 = .relExec) :
     (pc = .locked ∧ (new = e.mw ∨ e.started = false)) ∨
     (pc = .arrive ∧ (flagged e = true ∨ pids e = [])) ∨
-    (∃ cur, pc = .arrScan cur [] ∧ aliveIn cur e = true) := by
+    (∃ cur, pc = .arrScan cur [] ∧ e.lastAlive = true) := by
   revert h; cases pc <;> nx <;> simp_all
 
 section stream
@@ -333,11 +334,11 @@ variable (new : Nat) (E : Nat → Env)
 
 /-- In the middle of an `all(...)` of the arrival wait: the snapshot being scanned is the registered set of the
     observation `E j` made at the start of THIS iteration (after the last `sleep` / `release(shut)`), that
-    observation was not flagged, and every member before the current one was reported alive, each in the observation
-    that followed its `alive()` call. -/
+    observation was not flagged, and every `alive()` call made so far in this iteration returned true (the result of
+    the `i`-th call is the `lastAlive` of the observation `E (j+1+i)`). -/
 theorem arr_inv (n : Nat) (cur : Nat) (todo : List Nat) (h : st new E n = .arrScan cur todo) :
     ∃ j seen, j < n ∧ st new E j = .arrive ∧ flagged (E j) = false ∧ pids (E j) = seen ++ cur :: todo ∧
-      n = j + seen.length + 1 ∧ ∀ i p, seen[i]? = some p → aliveIn p (E (j + 1 + i)) = true := by
+      n = j + seen.length + 1 ∧ ∀ i, i < seen.length → (E (j + 1 + i)).lastAlive = true := by
   induction n generalizing cur todo with
   | zero => simp at h
   | succ n ih =>
@@ -346,63 +347,14 @@ theorem arr_inv (n : Nat) (cur : Nat) (todo : List Nat) (h : st new E n = .arrSc
     · exact ⟨n, [], by omega, h1, h2, by simpa using h3, by simp, by simp⟩
     · obtain ⟨j, seen, hj, hs, hf, hp, hn, ha⟩ := ih c (cur :: todo) h1
       refine ⟨j, seen ++ [c], by omega, hs, hf, by simpa using hp, by simp; omega, ?_⟩
-      intro i p hi
+      intro i hi
       by_cases hlt : i < seen.length
-      · rw [List.getElem?_append_left hlt] at hi
-        exact ha i p hi
-      · rw [List.getElem?_append_right (by omega)] at hi
-        have : i = seen.length := by
-          by_cases h0 : i - seen.length = 0
-          · omega
-          · have : ([c] : List Nat)[i - seen.length]? = none := by
-              apply List.getElem?_eq_none; simp; omega
-            rw [this] at hi; cases hi
-        subst this
-        simp at hi
-        subst hi
-        have : j + 1 + seen.length = n := by omega
+      · exact ha i hlt
+      · have hi' : i = seen.length := by simp at hi; omega
+        have : j + 1 + i = n := by omega
         rw [this]; exact h2
 
 end stream
-
-/-! ### `aliveIn` against the entries of `procs` -/
-
-theorem aliveIn_of_all {e : Env} {p : Nat} (hall : ∀ x ∈ e.procs, x.2 = true) (hp : p ∈ pids e) :
-    aliveIn p e = true := by
-  unfold aliveIn
-  cases hf : e.procs.find? (fun x => x.1 == p) with
-  | none =>
-    rw [List.find?_eq_none] at hf
-    simp only [pids, List.mem_map] at hp
-    obtain ⟨x, hx, rfl⟩ := hp
-    exact absurd (by simp) (hf x hx)
-  | some y => exact hall y (List.mem_of_find?_eq_some hf)
-
-theorem find_of_nodup (l : List (Nat × Bool)) (hnd : (l.map Prod.fst).Nodup) (x : Nat × Bool) (hx : x ∈ l) :
-    l.find? (fun y => y.1 == x.1) = some x := by
-  induction l with
-  | nil => cases hx
-  | cons a l ih =>
-    rw [List.map_cons, List.nodup_cons] at hnd
-    by_cases ha : a.1 = x.1
-    · rcases List.mem_cons.mp hx with rfl | hx'
-      · simp
-      · exact absurd (List.mem_map.mpr ⟨x, hx', ha.symm⟩) hnd.1
-    · have hx' : x ∈ l := by
-        rcases List.mem_cons.mp hx with rfl | hx'
-        · exact absurd rfl ha
-        · exact hx'
-      rw [List.find?_cons_of_neg (by simpa using ha)]
-      exact ih hnd.2 hx'
-
-/-- with distinct pids (they are dict keys) "every registered pid answers alive" is "every entry is alive" -/
-theorem all_of_aliveIn {e : Env} (hnd : (pids e).Nodup) (h : ∀ p ∈ pids e, aliveIn p e = true) :
-    ∀ x ∈ e.procs, x.2 = true := by
-  intro x hx
-  have h1 := h x.1 (List.mem_map.mpr ⟨x, hx, rfl⟩)
-  unfold aliveIn at h1
-  rw [find_of_nodup e.procs hnd x hx] at h1
-  exact h1
 
 /-! ### finite runs -/
 
@@ -428,11 +380,24 @@ theorem run_done (new : Nat) (es : List Env) : run new .done es = (List.replicat
   | nil => rfl
   | cons e es ih => simp [run_cons, next, ih, List.replicate_succ]
 
-/-- the answers an `all(...)` over the snapshot gets, one observation per call -/
+/-- the answers an `all(...)` over the snapshot gets, one observation (its `lastAlive`) per call -/
 def scanOK : List Nat → List Env → Bool
   | [], _ => true
-  | p :: ps, e :: es => aliveIn p e && scanOK ps es
+  | _ :: ps, e :: es => e.lastAlive && scanOK ps es
   | _ :: _, [] => false
+
+theorem scanOK_iff : ∀ (l : List Nat) (es : List Env), es.length = l.length →
+    (scanOK l es = true ↔ ∀ e ∈ es, e.lastAlive = true) := by
+  intro l
+  induction l with
+  | nil => intro es h; have : es = [] := by simpa using h
+           subst this; simp [scanOK]
+  | cons p ps ih =>
+    intro es h
+    match es, h with
+    | e :: es', h =>
+      have := ih es' (by simpa using h)
+      simp [scanOK, this]
 
 theorem arrScan_run (new : Nat) (cur : Nat) (todo : List Nat) (es : List Env) (hlen : es.length = todo.length + 1) :
     run new (.arrScan cur todo) es = (todo.map .alive ++ [.relExec], .done) ↔ scanOK (cur :: todo) es = true := by
@@ -440,13 +405,13 @@ theorem arrScan_run (new : Nat) (cur : Nat) (todo : List Nat) (es : List Env) (h
   | nil =>
     match es, hlen with
     | [e], _ =>
-      by_cases h : aliveIn cur e = true <;> simp [run_cons, next, arrStep, scanOK, h]
+      by_cases h : e.lastAlive = true <;> simp [run_cons, next, arrStep, scanOK, h]
   | cons p ps ih =>
     match es, hlen with
     | e :: es', hlen =>
       have hlen' : es'.length = ps.length + 1 := by simpa using hlen
       have := ih p es' hlen'
-      by_cases h : aliveIn cur e = true
+      by_cases h : e.lastAlive = true
       · simp only [run_cons, next, h, if_true, arrStep, List.map_cons, List.cons_append, Prod.mk.injEq,
           List.cons.injEq, true_and]
         rw [scanOK, h, Bool.true_and, ← this]
@@ -471,10 +436,8 @@ structure Quiet : Prop where
       this thread's own `pstart`s, each registering one worker -/
   lenFrozen : ∀ n, (lb new E n = .acqShut ∨ (7 ≤ rank (st new E n) ∧ rank (st new E n) ≤ 9)) →
       (E (n + 1)).procs.length = (E n).procs.length + if lb new E n = .pstart then 1 else 0
-  /-- during the arrival wait the registered set does not change … -/
+  /-- during the arrival wait the registered set does not change -/
   arrStay : ∀ n, rank (st new E n) = 10 → pids (E (n + 1)) = pids (E n)
-  /-- … and nobody dies (workers only come alive) -/
-  arrAlive : ∀ n, rank (st new E n) = 10 → ∀ p ∈ pids (E n), aliveIn p (E n) = true → aliveIn p (E (n + 1)) = true
 
 end stream
 
@@ -517,32 +480,19 @@ theorem len_inv (hq : Quiet new E) (n : Nat) : LenInv new (st new E n) (E n) := 
       simp [h1, h2]
     · exact hq.lenFrozen n (by rcases h with h | h; exact Or.inl h; exact Or.inr (by omega))
 
-/-- under a quiet environment every member of the snapshot seen so far is alive in the CURRENT observation, and the
-    snapshot is the current registered set -/
-theorem arrq_inv (hq : Quiet new E) (n : Nat) (cur : Nat) (todo : List Nat) (h : st new E n = .arrScan cur todo) :
-    ∃ seen, pids (E n) = seen ++ cur :: todo ∧ ∀ p ∈ seen, aliveIn p (E n) = true := by
-  induction n generalizing cur todo with
-  | zero => simp at h
-  | succ n ih =>
-    rw [st_succ] at h
-    rcases into_arrScan h with ⟨h1, _, h3⟩ | ⟨c, h1, h2⟩
-    · refine ⟨[], ?_, by simp⟩
-      rw [hq.arrStay n (by rw [h1]; rfl), h3]; rfl
-    · obtain ⟨seen, hp, ha⟩ := ih c (cur :: todo) h1
-      have h10 : rank (st new E n) = 10 := by rw [h1]; rfl
-      refine ⟨seen ++ [c], ?_, ?_⟩
-      · rw [hq.arrStay n h10, hp]; simp
-      · intro p hp'
-        have hmem : p ∈ pids (E n) := by
-          rw [hp]
-          rcases List.mem_append.mp hp' with h' | h'
-          · exact List.mem_append.mpr (Or.inl h')
-          · have : p = c := by simpa using h'
-            subst this; simp
-        rcases List.mem_append.mp hp' with h' | h'
-        · exact hq.arrAlive n h10 p hmem (ha p h')
-        · have : p = c := by simpa using h'
-          subst this; exact hq.arrAlive n h10 p hmem h2
+/-- under a quiet environment the registered set is the same all along the arrival wait -/
+theorem pids_const (hq : Quiet new E) {j : Nat} (hj : rank (st new E j) = 10) :
+    ∀ d, rank (st new E (j + d)) = 10 → pids (E (j + d)) = pids (E j) := by
+  intro d
+  induction d with
+  | zero => intro _; rfl
+  | succ d ih =>
+    intro h
+    have h1 := rank_mono new E (n := j) (m := j + d) (by omega)
+    have h2 := rank_mono new E (n := j + d) (m := j + (d + 1)) (by omega)
+    have h10 : rank (st new E (j + d)) = 10 := by omega
+    have := hq.arrStay (j + d) h10
+    rw [← ih h10, ← this]; rfl
 
 end stream
 
@@ -557,16 +507,15 @@ structure Helpful (N : Nat) : Prop where
   pend : ∀ n, N ≤ n → (E n).pending = 0
   /-- the pool is not larger than asked for, or the executor is broken -/
   dep : ∀ n, N ≤ n → (E n).procs.length ≤ new ∨ (E n).broken = true
-  /-- every registered worker is alive, or the executor is flagged -/
-  allAlive : ∀ n, N ≤ n → flagged (E n) = true ∨ ∀ x ∈ (E n).procs, x.2 = true
+  /-- every `alive()` call of the arrival scan returns true, or the executor is flagged -/
+  allAlive : ∀ n, N ≤ n → (∃ cur todo, st new E n = .arrScan cur todo) →
+      (E n).lastAlive = true ∨ flagged (E n) = true
   /-- the put time-outs have stopped, or a flag is raised -/
   putOk : ∀ n, N ≤ n → (∃ r, st new E n = .sentAcq r) → (E n).lastTimeout = false ∨ flagged (E n) = true
   /-- the registered set has grown when the thread looks again after an own `pstart`
       (`E n` decided that spawn, `E (n+2)` is the observation after the `pstart`) -/
   grow : ∀ n, N ≤ n → lb new E (n + 1) = .pstart → (E n).procs.length < (E (n + 2)).procs.length
-  /-- during the arrival wait nobody un-registers … -/
-  stay : ∀ n, N ≤ n → rank (st new E n) = 10 → ∀ p ∈ pids (E n), p ∈ pids (E (n + 1))
-  /-- … and the flags are never reset -/
+  /-- during the arrival wait the flags are never reset -/
   stick : ∀ n, N ≤ n → rank (st new E n) = 10 → flagged (E n) = true → flagged (E (n + 1)) = true
 
 /-- the call returns -/
@@ -583,32 +532,31 @@ theorem step_eq {n : Nat} {pc : Pc} (h : st new E n = pc) : st new E (n + 1) = (
 theorem reach_arrive_flagged (_H : Helpful new E N) {n : Nat} (hs : st new E n = .arrive) (hf : flagged (E n) = true) :
     Reach new E := ⟨n + 1, by rw [step_eq hs]; simp [next, hf]⟩
 
-theorem reach_dead (H : Helpful new E N) {n cur : Nat} {todo : List Nat} (hn : N ≤ n)
-    (hs : st new E n = .arrScan cur todo) (hm : cur ∈ pids (E n)) (ha : ¬ aliveIn cur (E n) = true) : Reach new E := by
-  have hf : flagged (E n) = true := by
-    rcases H.allAlive n hn with h | h
-    · exact h
-    · exact absurd (aliveIn_of_all h hm) ha
-  have h1 : st new E (n + 1) = .arrive := by rw [step_eq hs]; simp [next, ha]
-  exact reach_arrive_flagged H h1 (H.stick n hn (by rw [hs]; rfl) hf)
-
-/-- a scan over members that are all currently registered ends the call -/
-theorem reach_arrGood (H : Helpful new E N) : ∀ (todo : List Nat) (cur n : Nat), N ≤ n →
-    st new E n = .arrScan cur todo → (∀ p ∈ cur :: todo, p ∈ pids (E n)) → Reach new E := by
+/-- the arrival scan, wherever it is (also a scan that was already under way at `N`) -/
+theorem reach_arrScan (H : Helpful new E N) : ∀ (todo : List Nat) (cur n : Nat), N ≤ n →
+    st new E n = .arrScan cur todo → Reach new E := by
   intro todo
   induction todo with
   | nil =>
-    intro cur n hn hs hm
-    by_cases ha : aliveIn cur (E n) = true
+    intro cur n hn hs
+    by_cases ha : (E n).lastAlive = true
     · exact ⟨n + 1, by rw [step_eq hs]; simp [next, ha, arrStep]⟩
-    · exact reach_dead H hn hs (hm cur (by simp)) ha
+    · have hf : flagged (E n) = true := by
+        rcases H.allAlive n hn ⟨cur, [], hs⟩ with h | h
+        · exact absurd h ha
+        · exact h
+      have h1 : st new E (n + 1) = .arrive := by rw [step_eq hs]; simp [next, ha]
+      exact reach_arrive_flagged H h1 (H.stick n hn (by rw [hs]; rfl) hf)
   | cons p ps ih =>
-    intro cur n hn hs hm
-    by_cases ha : aliveIn cur (E n) = true
-    · have h1 : st new E (n + 1) = .arrScan p ps := by rw [step_eq hs]; simp [next, ha, arrStep]
-      exact ih p (n + 1) (by omega) h1
-        (fun q hq => H.stay n hn (by rw [hs]; rfl) q (hm q (List.mem_cons_of_mem _ hq)))
-    · exact reach_dead H hn hs (hm cur (by simp)) ha
+    intro cur n hn hs
+    by_cases ha : (E n).lastAlive = true
+    · exact ih p (n + 1) (by omega) (by rw [step_eq hs]; simp [next, ha, arrStep])
+    · have hf : flagged (E n) = true := by
+        rcases H.allAlive n hn ⟨cur, p :: ps, hs⟩ with h | h
+        · exact absurd h ha
+        · exact h
+      have h1 : st new E (n + 1) = .arrive := by rw [step_eq hs]; simp [next, ha]
+      exact reach_arrive_flagged H h1 (H.stick n hn (by rw [hs]; rfl) hf)
 
 theorem reach_arrive (H : Helpful new E N) {n : Nat} (hn : N ≤ n) (hs : st new E n = .arrive) : Reach new E := by
   by_cases hf : flagged (E n) = true
@@ -616,26 +564,7 @@ theorem reach_arrive (H : Helpful new E N) {n : Nat} (hn : N ≤ n) (hs : st new
   · cases hp : pids (E n) with
     | nil => exact ⟨n + 1, by rw [step_eq hs]; simp [next, hf, hp, arrStep]⟩
     | cons p ps =>
-      have h1 : st new E (n + 1) = .arrScan p ps := by rw [step_eq hs]; simp [next, hf, hp, arrStep]
-      refine reach_arrGood H ps p (n + 1) (by omega) h1 ?_
-      intro q hq
-      exact H.stay n hn (by rw [hs]; rfl) q (by rw [hp]; exact hq)
-
-/-- a scan of a possibly stale snapshot (the call was in the middle of it at `N`) -/
-theorem reach_arrAny (H : Helpful new E N) : ∀ (todo : List Nat) (cur n : Nat), N ≤ n →
-    st new E n = .arrScan cur todo → Reach new E := by
-  intro todo
-  induction todo with
-  | nil =>
-    intro cur n hn hs
-    by_cases ha : aliveIn cur (E n) = true
-    · exact ⟨n + 1, by rw [step_eq hs]; simp [next, ha, arrStep]⟩
-    · exact reach_arrive H (n := n + 1) (by omega) (by rw [step_eq hs]; simp [next, ha])
-  | cons p ps ih =>
-    intro cur n hn hs
-    by_cases ha : aliveIn cur (E n) = true
-    · exact ih p (n + 1) (by omega) (by rw [step_eq hs]; simp [next, ha, arrStep])
-    · exact reach_arrive H (n := n + 1) (by omega) (by rw [step_eq hs]; simp [next, ha])
+      exact reach_arrScan H ps p (n + 1) (by omega) (by rw [step_eq hs]; simp [next, hf, hp, arrStep])
 
 theorem reach_woke (H : Helpful new E N) {n : Nat} (hn : N ≤ n) (hs : st new E n = .woke) : Reach new E :=
   reach_arrive H (n := n + 1) (by omega) (by rw [step_eq hs]; simp [next])
@@ -772,7 +701,7 @@ theorem reach_any (H : Helpful new E N) : Reach new E := by
   | spawned => exact reach_spawned H (Nat.le_refl _) hs
   | woke => exact reach_woke H (Nat.le_refl _) hs
   | arrive => exact reach_arrive H (Nat.le_refl _) hs
-  | arrScan cur todo => exact reach_arrAny H todo cur N (Nat.le_refl _) hs
+  | arrScan cur todo => exact reach_arrScan H todo cur N (Nat.le_refl _) hs
   | done => exact ⟨N, hs⟩
 
 end stream
@@ -790,20 +719,31 @@ theorem no_put_when_flagged {new : Nat} {pc : Pc} {e : Env} (hf : flagged e = tr
     (next new pc e).1 ≠ .acqCqSem := by
   cases pc <;> nx <;> simp_all
 
-theorem scanOK_replicate (e : Env) : ∀ (l : List Nat) (k : Nat), l.length ≤ k →
-    (scanOK l (List.replicate k e) = true ↔ ∀ p ∈ l, aliveIn p e = true) := by
-  intro l
-  induction l with
-  | nil => intro k _; simp [scanOK]
-  | cons p ps ih =>
-    intro k hk
-    cases k with
-    | zero => simp at hk
-    | succ k =>
-      have := ih k (by simpa using hk)
-      simp [List.replicate_succ, scanOK, this]
-
 theorem ofList_ge {es : List Env} {d : Env} {n : Nat} (h : es.length ≤ n) : ofList es d n = d := by
   simp [ofList, List.getD, List.getElem?_eq_none h]
+
+/-- literal reading of the fixed sentinel loop: a flagged observation skips ONE sentinel without any operation and
+    the `for` goes on to the next one, which re-checks the flags on the same observation -/
+def sentStepLit (rem : Nat) (e : Env) : Label × Pc :=
+  match rem with
+  | 0 => (.relMgmt, .depart)
+  | r + 1 => if flagged e then sentStepLit r e else (.acqCqSem, .sentAcq r)
+
+/-- … which is what the model's `sentStep` computes in one go -/
+theorem sentStepLit_eq (rem : Nat) (e : Env) : sentStepLit rem e = sentStep rem e := by
+  induction rem with
+  | zero => rfl
+  | succ r ih =>
+    by_cases hf : flagged e = true
+    · rw [sentStepLit, if_pos hf, ih]
+      cases r <;> simp [sentStep, hf]
+    · simp [sentStepLit, sentStep, hf]
+
+/-- without put time-outs every announced `acquire(cq.sem,B,T)` posts its sentinel -/
+theorem attempts_eq_puts {new : Nat} {E : Nat → Env} (h : ∀ n, (E n).lastTimeout = false) (n : Nat) :
+    attempts new E n = puts new E n := by
+  induction n with
+  | zero => rfl
+  | succ n ih => simp [attempts, puts, ih, h (n + 1)]
 
 end LokyModel.Resize
